@@ -145,7 +145,7 @@ def valid_case(case: dict) -> bool:
 
 
 def shards(tier: str, seed: int) -> list[dict]:
-    n_sh, per = (16, 150) if tier == "quick" else (32, 1500)
+    n_sh, per = (16, 150) if tier == "quick" else (32, 500)
     return [{"mode": "b_models", "seed": seed * 1000 + 500 + i, "n": per} for i in range(n_sh)]
 
 
